@@ -57,7 +57,7 @@ options={"sum_factorization":True}'''),
 m=mesh("tetrahedron"); V=space(m,"P",1); v=TestFunction(V); f=Coefficient(V)
 mh=mesh("hexahedron"); Vh=space(mh,"Q",1); vh=TestFunction(Vh)
 objs=[MinFacetEdgeLength(m)*f*v*ds + MaxFacetEdgeLength(m)*v*ds + MinCellEdgeLength(m)*v*dx + MaxCellEdgeLength(m)*f*v*dx + Circumradius(m)*v*ds,
-      MinFacetEdgeLength(mh)*vh*ds + MaxCellEdgeLength(mh)*vh*dx + FacetArea(mh)*vh*ds + CellVolume(mh)*vh*dx]'''),
+      MinFacetEdgeLength(mh)*vh*ds + MaxCellEdgeLength(mh)*vh*dx + MaxFacetEdgeLength(mh)('+')*avg(vh)*dS]'''),
     _c("c18_expression_descriptor_shapes", '''
 m=mesh("triangle"); V=space(m,"P",2,shape=(2,)); f=Coefficient(V); u=TrialFunction(V); k=Constant(m,shape=(2,2))
 objs=[(f, np.array([[0.25,0.25]])), (grad(f)*k, np.array([[0.25,0.25],[0.5,0.125]])), (outer(u,f), np.array([[0.125,0.5]])), (div(f), np.array([[0.5,0.25]]))]'''),
